@@ -17,22 +17,27 @@ Definition nonzero (z : Z) : bool := negb (Z.eqb z 0).
 
 Definition term := (Q * nat * Q)%type.
 
+(* weight(spec): the mass number, or 1.0 for species without one (dust grains) *)
+Definition weight (a : Q) : Q := if Qle_bool a 0 then 1 else a.
+
 (* for ispec, spec in enumerate(species): if not spec.is_electron and ci and cj: ... *)
 Definition matrix_entry (elA : list Q) (sps : list rsp) (i j : nat) : list term :=
   flat_map (fun p : nat * rsp =>
               let s := snd p in
               if negb (r_elec s) && nonzero (cnt s i) && nonzero (cnt s j)
-              then [(inject_Z (cnt s i * cnt s j) * nth j elA 0, fst p, r_mass s)]
+              then [(inject_Z (cnt s i * cnt s j) * weight (nth j elA 0), fst p, weight (r_mass s))]
               else []) (enumerate sps).
 
 Definition matrix (elA : list Q) (sps : list rsp) : list (list term) :=
   let n := List.length elA in
   flat_map (fun i => map (fun j => matrix_entry elA sps i j) (seq 0 n)) (seq 0 n).
 
-(* None = the literal 1.0 of an electron *)
+(* None = the literal 1.0: electrons, and species sharing no element with the network's atoms *)
+Definition factor_terms (elA : list Q) (s : rsp) : list term :=
+  flat_map (fun j => if nonzero (cnt s j) then [(inject_Z (cnt s j) * weight (nth j elA 0), j, weight (r_mass s))] else [])
+           (seq 0 (List.length elA)).
 Definition factor_entry (elA : list Q) (s : rsp) : option (list term) :=
   if r_elec s then None
-  else Some (flat_map (fun j => if nonzero (cnt s j) then [(inject_Z (cnt s j) * nth j elA 0, j, r_mass s)] else [])
-                      (seq 0 (List.length elA))).
+  else match factor_terms elA s with [] => None | l => Some l end.
 
 Definition factors (elA : list Q) (sps : list rsp) : list (option (list term)) := map (factor_entry elA) sps.
